@@ -252,7 +252,8 @@ PROPS["C01"] = {'claimed': True,
          'scripted applications, stable two-master rings over many token visits with small HSA (complete GAP sweeps, late successor inside the GAP, '
          'GAP replies ready / in-ring / not-ready / slave / wrong source / wrong destination / status != Ok), rings of 3..4 known stations whose '
          'successor vanishes and returns, re-claims after the other masters died (GAP cursor mid-sweep / waiting), short TTR with applications that never decline / whose '
-         'requests time out after another application declined, PHY busy longer than the predicted transmission with successors answering late; every case runs '
+         'requests time out after another application declined, PHY busy longer than the predicted transmission with successors answering late, replies that break off after their first bytes, masters that die in the middle of '
+         'a token telegram; every case runs '
          'under a wall-clock watchdog (TIMEOUT); non-trivial = polls that transmit, accept a token, deliver a reply / time-out or run a GAP branch',
  'trusted_base': ['hand model coq/Model/Fdl.v of src/fdl/active.rs (all of it: states, legality assertions, poll_inner branch for branch), on top of '
                   "Telegram.v / Phy.v / TokenRing.v / Params.v; tied by differential execution poll by poll on this run's histories (all outputs, "
@@ -293,7 +294,8 @@ PROPS["C05"] = {'claimed': True,
          'scripted applications, stable two-master rings over many token visits with small HSA (complete GAP sweeps, late successor inside the GAP, '
          'GAP replies ready / in-ring / not-ready / slave / wrong source / wrong destination / status != Ok), rings of 3..4 known stations whose '
          'successor vanishes and returns, re-claims after the other masters died (GAP cursor mid-sweep / waiting), short TTR with applications that never decline / whose '
-         'requests time out after another application declined, PHY busy longer than the predicted transmission with successors answering late; every case runs '
+         'requests time out after another application declined, PHY busy longer than the predicted transmission with successors answering late, replies that break off after their first bytes, masters that die in the middle of '
+         'a token telegram; every case runs '
          'under a wall-clock watchdog (TIMEOUT); non-trivial = polls that transmit, accept a token, deliver a reply / time-out or run a GAP branch',
  'trusted_base': ['hand model coq/Model/Fdl.v of src/fdl/active.rs (all of it: states, legality assertions, poll_inner branch for branch), on top of '
                   "Telegram.v / Phy.v / TokenRing.v / Params.v; tied by differential execution poll by poll on this run's histories (all outputs, "
@@ -333,7 +335,8 @@ PROPS["C06"] = {'claimed': True,
          'scripted applications, stable two-master rings over many token visits with small HSA (complete GAP sweeps, late successor inside the GAP, '
          'GAP replies ready / in-ring / not-ready / slave / wrong source / wrong destination / status != Ok), rings of 3..4 known stations whose '
          'successor vanishes and returns, re-claims after the other masters died (GAP cursor mid-sweep / waiting), short TTR with applications that never decline / whose '
-         'requests time out after another application declined, PHY busy longer than the predicted transmission with successors answering late; every case runs '
+         'requests time out after another application declined, PHY busy longer than the predicted transmission with successors answering late, replies that break off after their first bytes, masters that die in the middle of '
+         'a token telegram; every case runs '
          'under a wall-clock watchdog (TIMEOUT); non-trivial = polls that transmit, accept a token, deliver a reply / time-out or run a GAP branch',
  'trusted_base': ['hand model coq/Model/Fdl.v of src/fdl/active.rs (all of it: states, legality assertions, poll_inner branch for branch), on top of '
                   "Telegram.v / Phy.v / TokenRing.v / Params.v; tied by differential execution poll by poll on this run's histories (all outputs, "
@@ -360,7 +363,8 @@ PROPS["C11"] = {'claimed': True,
          'scripted applications, stable two-master rings over many token visits with small HSA (complete GAP sweeps, late successor inside the GAP, '
          'GAP replies ready / in-ring / not-ready / slave / wrong source / wrong destination / status != Ok), rings of 3..4 known stations whose '
          'successor vanishes and returns, re-claims after the other masters died (GAP cursor mid-sweep / waiting), short TTR with applications that never decline / whose '
-         'requests time out after another application declined, PHY busy longer than the predicted transmission with successors answering late; every case runs '
+         'requests time out after another application declined, PHY busy longer than the predicted transmission with successors answering late, replies that break off after their first bytes, masters that die in the middle of '
+         'a token telegram; every case runs '
          'under a wall-clock watchdog (TIMEOUT); non-trivial = polls that transmit, accept a token, deliver a reply / time-out or run a GAP branch',
  'trusted_base': ['hand model coq/Model/Fdl.v of src/fdl/active.rs (all of it: states, legality assertions, poll_inner branch for branch), on top of '
                   "Telegram.v / Phy.v / TokenRing.v / Params.v; tied by differential execution poll by poll on this run's histories (all outputs, "
@@ -387,7 +391,8 @@ PROPS["C12"] = {'claimed': True,
          'scripted applications, stable two-master rings over many token visits with small HSA (complete GAP sweeps, late successor inside the GAP, '
          'GAP replies ready / in-ring / not-ready / slave / wrong source / wrong destination / status != Ok), rings of 3..4 known stations whose '
          'successor vanishes and returns, re-claims after the other masters died (GAP cursor mid-sweep / waiting), short TTR with applications that never decline / whose '
-         'requests time out after another application declined, PHY busy longer than the predicted transmission with successors answering late; every case runs '
+         'requests time out after another application declined, PHY busy longer than the predicted transmission with successors answering late, replies that break off after their first bytes, masters that die in the middle of '
+         'a token telegram; every case runs '
          'under a wall-clock watchdog (TIMEOUT); non-trivial = polls that transmit, accept a token, deliver a reply / time-out or run a GAP branch',
  'trusted_base': ['hand model coq/Model/Fdl.v of src/fdl/active.rs (all of it: states, legality assertions, poll_inner branch for branch), on top of '
                   "Telegram.v / Phy.v / TokenRing.v / Params.v; tied by differential execution poll by poll on this run's histories (all outputs, "
@@ -457,7 +462,8 @@ PROPS["C13"] = {'claimed': False,
          'scripted applications, stable two-master rings over many token visits with small HSA (complete GAP sweeps, late successor inside the GAP, '
          'GAP replies ready / in-ring / not-ready / slave / wrong source / wrong destination / status != Ok), rings of 3..4 known stations whose '
          'successor vanishes and returns, re-claims after the other masters died (GAP cursor mid-sweep / waiting), short TTR with applications that never decline / whose '
-         'requests time out after another application declined, PHY busy longer than the predicted transmission with successors answering late; every case runs '
+         'requests time out after another application declined, PHY busy longer than the predicted transmission with successors answering late, replies that break off after their first bytes, masters that die in the middle of '
+         'a token telegram; every case runs '
          'under a wall-clock watchdog (TIMEOUT); non-trivial = polls that transmit, accept a token, deliver a reply / time-out or run a GAP branch',
  'trusted_base': ['hand model coq/Model/Fdl.v of src/fdl/active.rs (all of it: states, legality assertions, poll_inner branch for branch), on top of '
                   "Telegram.v / Phy.v / TokenRing.v / Params.v; tied by differential execution poll by poll on this run's histories (all outputs, "
@@ -489,7 +495,8 @@ PROPS["C15"] = {'claimed': False,
          'scripted applications, stable two-master rings over many token visits with small HSA (complete GAP sweeps, late successor inside the GAP, '
          'GAP replies ready / in-ring / not-ready / slave / wrong source / wrong destination / status != Ok), rings of 3..4 known stations whose '
          'successor vanishes and returns, re-claims after the other masters died (GAP cursor mid-sweep / waiting), short TTR with applications that never decline / whose '
-         'requests time out after another application declined, PHY busy longer than the predicted transmission with successors answering late; every case runs '
+         'requests time out after another application declined, PHY busy longer than the predicted transmission with successors answering late, replies that break off after their first bytes, masters that die in the middle of '
+         'a token telegram; every case runs '
          'under a wall-clock watchdog (TIMEOUT); non-trivial = polls that transmit, accept a token, deliver a reply / time-out or run a GAP branch',
  'trusted_base': ['hand model coq/Model/Fdl.v of src/fdl/active.rs (all of it: states, legality assertions, poll_inner branch for branch), on top of '
                   "Telegram.v / Phy.v / TokenRing.v / Params.v; tied by differential execution poll by poll on this run's histories (all outputs, "
@@ -611,7 +618,7 @@ PROPS["C03"] = {'claimed': True,
  'assumptions': ['histories allowed by the FdlApplication contract (C15); peripherals added before the history starts',
                  'max_retry_limit >= 1 (ParametersBuilder admits 1..15); runs that do not panic (panic freedom is C05)',
                  'bytes 0..255, addresses 0..125'],
- 'partial_gap': 'all planned C03 theorems are proved. Stated as coded: (a) a diagnostics reply with Prm_Req both restarts the bring-up and counts as '
+ 'partial_gap': 'all planned C03 theorems are proved. Peripheral::reset_address (a user call that asks for a new bring-up, possibly at another address) is NOT an operation of the history theorems: histories containing it are covered by the correspondence check (model p_reset_address / dp_reset_address, harness op RA) and the executable monitors DpOracle.c03_monitor_ra / c04_monitor_ra / c08_monitor_ra / c14_monitor_ra only (phase back to NeedDiag, next request FCV=0/FCB=1, life-cycle Off without event); known finding F22 (class DpOracle.known_reset_while_pending): reset_address while that peripheral\'s reply is outstanding. Stated as coded: (a) a diagnostics reply with Prm_Req both restarts the bring-up and counts as '
                 'its answered diagnostics request (DESIGN 4.0); (b) in Ready a diagnostics reply with fault flags but without Prm_Req does not leave '
                 'Ready (the master does not consider the peripheral offline there); (c) with user_parameters / config = None the peripheral idles in '
                 "WaitForParam / WaitForConfig (observation O7); (d) the Data_Exchange PDU itself is C04's subject; (e) the requested watchdog time "
@@ -767,7 +774,7 @@ PROPS["C08"] = {'claimed': True,
  'assumptions': ['histories allowed by the FdlApplication contract (C15); peripherals added before the history starts',
                  'max_retry_limit >= 1 (ParametersBuilder admits 1..15); runs that do not panic (panic freedom is C05)',
                  'bytes 0..255, addresses 0..125'],
- 'partial_gap': 'all planned C08 theorems are proved. Stated as coded: (a) "first request" after F18: besides the first request after start-up / an '
+ 'partial_gap': 'all planned C08 theorems are proved. Peripheral::reset_address (a user call that asks for a new bring-up, possibly at another address) is NOT an operation of the history theorems: histories containing it are covered by the correspondence check (model p_reset_address / dp_reset_address, harness op RA) and the executable monitors DpOracle.c03_monitor_ra / c04_monitor_ra / c08_monitor_ra / c14_monitor_ra only (phase back to NeedDiag, next request FCV=0/FCB=1, life-cycle Off without event); known finding F22 (class DpOracle.known_reset_while_pending): reset_address while that peripheral\'s reply is outstanding. Stated as coded: (a) "first request" after F18: besides the first request after start-up / an '
                 'Offline event, every probe that follows an unanswered probe of a peripheral that is not live carries FCV=0/FCB=1 again; the '
                 'property text allows it as a retransmission (same service and destination, no acceptable reply) and C08_offline_then_probes states '
                 'it; (b) after a parameter / configuration fault (internal offline state without Offline event, DESIGN 4.0) the first probe toggles '
@@ -849,7 +856,8 @@ PROPS["C13"] = {'claimed': True,
          'scripted applications, stable two-master rings over many token visits with small HSA (complete GAP sweeps, late successor inside the GAP, '
          'GAP replies ready / in-ring / not-ready / slave / wrong source / wrong destination / status != Ok), rings of 3..4 known stations whose '
          'successor vanishes and returns, re-claims after the other masters died (GAP cursor mid-sweep / waiting), short TTR with applications that never decline / whose '
-         'requests time out after another application declined, PHY busy longer than the predicted transmission with successors answering late; every case runs '
+         'requests time out after another application declined, PHY busy longer than the predicted transmission with successors answering late, replies that break off after their first bytes, masters that die in the middle of '
+         'a token telegram; every case runs '
          'under a wall-clock watchdog (TIMEOUT); non-trivial = polls that transmit, accept a token, '
          'deliver a reply / time-out or run a GAP branch',
  'trusted_base': ['hand model coq/Model/Fdl.v of src/fdl/active.rs (all of it: states, legality assertions, poll_inner branch for branch), on top of '
@@ -903,7 +911,8 @@ PROPS["C15"] = {'claimed': True,
          'scripted applications, stable two-master rings over many token visits with small HSA (complete GAP sweeps, late successor inside the GAP, '
          'GAP replies ready / in-ring / not-ready / slave / wrong source / wrong destination / status != Ok), rings of 3..4 known stations whose '
          'successor vanishes and returns, re-claims after the other masters died (GAP cursor mid-sweep / waiting), short TTR with applications that never decline / whose '
-         'requests time out after another application declined, PHY busy longer than the predicted transmission with successors answering late; every case runs '
+         'requests time out after another application declined, PHY busy longer than the predicted transmission with successors answering late, replies that break off after their first bytes, masters that die in the middle of '
+         'a token telegram; every case runs '
          'under a wall-clock watchdog (TIMEOUT); non-trivial = polls that transmit, accept a token, '
          'deliver a reply / time-out or run a GAP branch',
  'trusted_base': ['hand model coq/Model/Fdl.v of src/fdl/active.rs (all of it: states, legality assertions, poll_inner branch for branch), on top of '
@@ -1055,3 +1064,76 @@ PROPS["C06"]["also"] = [("C05", "panic")]
 PROPS["C07"]["also"] = [("C14", "cycle_events:1405"), ("C14", "cycle_events:1406")]
 #  C12 "a station answers status requests addressed to it": a panicking poll answers nothing (C05's panic rule in the fdl domain).
 PROPS["C12"]["also"] = [("C05", "panic")]
+#  C15 "the token is passed once ... the hold time is over" is the hold rule monitored as C13's low_prio_after_hold_time /
+#      second_cycle_after_hold_time (theorem C13_hold_rule).
+PROPS["C15"]["also"] = [("C13", "low_prio_after_hold_time"), ("C13", "second_cycle_after_hold_time")]
+#  C10 is anchored in src/phy/mod.rs too: the receive helpers must drop exactly the decoder's reported length
+#      (C16's reassembly oracles in the phyrx domain).
+PROPS["C10"]["domains"] = list(PROPS["C10"]["domains"]) + ["phyrx"]
+PROPS["C10"]["also"] = [("C16", "reassembly"), ("C16", "is_last"), ("C16", "sim_reassembly")]
+
+# ---- DP layer: oracle soundness (coq/Proofs/DpOracleSound.v) and the C07 bridge to the DP master (coq/Proofs/C07Bridge.v).
+#      Only the DP entries are adjusted: what is now proved, which hypotheses remain.
+_ORACLE_SOUND_HYP = (
+    'for every configuration with cf_autotake, DpOracle.conf_sane, DpOracle.conf_within_limits, max_retry_limit >= 1, own address 0..126 and '
+    'pre-placed peripherals in distinct storage slots (conf_ok), every input list - the three FdlApplication callbacks, a request dropped by the '
+    'FDL, request_diagnostics(), pi_q writes, enter_state(), take_last_events(), add() DURING the history, environment steps - whose model '
+    'transcript (model_run = DpRun.run_in + auto_take + observe from DpRun.init_sys, up to a model panic) passes DpOracle.contract_ok and the '
+    "driver's guards driver_ok (no ill-formed input; add(k) only for a peripheral not yet in the master and only between requests, as the "
+    'harness does)')
+for _pid, _what in (("C03", "bring-up order / request contents"), ("C04", "process image"), ("C08", "frame count bit / retry"),
+                    ("C14", "cycle / event accounting")):
+    _m = _pid.lower()
+    PROPS[_pid]["level_text"] += (
+        f' ORACLE SOUNDNESS ({_pid}_oracle_sound, proofs in coq/Proofs/DpOracleSound.v): the executable {_what} monitor DpOracle.{_m}_monitor '
+        f'that ocaml/run_dp.ml runs on the implementation transcripts ACCEPTS EVERY TRANSCRIPT OF THE MODEL: {_ORACLE_SOUND_HYP}, '
+        f'{_m}_monitor returns None. Any peripheral set and storage layout, global control, time-outs, dropped requests, every reply telegram. '
+        f'Proof: a simulation between the oracle state and the ghost state of the proved monitors (DpHistory.Inv per slot, the slots visited by '
+        f'one slot-loop call, the turn bookkeeping), step by step over the transcript. So a failure code of this monitor on a transcript of the '
+        f'real crate that agrees with the model (0 divergences) is not a false alarm of the monitor. Non-vacuity: {_pid}_oracle_sound_hypotheses '
+        f'(computed 22-step history with add() during the run, Online, Offline, two completed cycles). No oracle bug was found.')
+    PROPS[_pid]["technique"] += (' + machine-checked soundness of the executable monitor on the model (simulation oracle state <-> ghost '
+                                 'monitor state, induction over the transcript)')
+for _pid in ("C03", "C08"):
+    _old = PROPS[_pid]["partial_gap"]
+    _cut = _old.index("Not proved in Coq: that the executable oracle")
+    PROPS[_pid]["partial_gap"] = _old[:_cut] + (
+        f'The executable oracle DpOracle.{_pid.lower()}_monitor is now PROVED to accept every model transcript ({_pid}_oracle_sound, including '
+        'add() between requests during the history); what remains outside: add() while a reply is outstanding (not generated; it re-routes the '
+        'reply), max_retry_limit = 0 (rejected by ParametersBuilder) and transcripts taken without take_last_events() after every callback (the '
+        'monitors are not run on those).')
+PROPS["C04"]["partial_gap"] = PROPS["C04"]["partial_gap"].replace(
+    'add() during a history is not covered (fixed peripheral set)',
+    'add() during a history is not covered by the phase-2 history theorems (fixed peripheral set) but IS covered by C04_oracle_sound (add() '
+    'between requests)')
+PROPS["C14"]["partial_gap"] = PROPS["C14"]["partial_gap"].replace(
+    'add() during a history is not covered (the peripheral set is fixed; the executable monitor marks such cycles and does not judge them either).',
+    'add() during a history is not covered by the history theorems (the peripheral set is fixed); C14_oracle_sound covers it (add() between '
+    'requests: the executable monitor marks such cycles dirty and does not judge their turn order, which the proof follows).')
+PROPS["C07"]["level_text"] += (
+    ' BRIDGE TO THE DP MASTER (phase 3, proofs in coq/Proofs/C07Bridge.v): master_visit = one token visit of the fault-free bus with the DpMaster '
+    'model and n >= 1 reference slaves (dp_transmit; a Global_Control broadcast is seen by every device; a request by the device with the '
+    'destination address, its answer - if it decodes completely and passes the FDL admission rule - goes to dp_receive_reply, otherwise '
+    'dp_handle_timeout), master_run = any schedule of visits, counting the visits that report cycle_completed. C07_master_runs_joint_system: '
+    'after every run with K completed master cycles the peripheral of every slot and its device are exactly where n cycles of the '
+    'single-peripheral joint system take the pair (device up to the recorded Global_Control command), n >= K from a cycle boundary and '
+    'n + 1 >= K from inside a cycle: the transmit_telegram / '
+    'receive_reply calls DpMaster makes for one peripheral ARE a run of the joint system, at least one joint cycle per master cycle (each occupied '
+    'slot gets its turn in every cycle; a retransmission after a time-out happens at the next visit inside the same cycle). C07_recovery_master '
+    '(and _explicit): no pair in the F15 class => in every run with at least max_retry + 11 (+ 1 when started inside a cycle) completed MASTER '
+    'cycles every peripheral is in '
+    'DataExchange with its device in Data_Exch, and stays there (the statement holds for every longer run). Any number of slots / storage '
+    'layout / visit times, distinct addresses. C07_bridge_step: the invariant step for every token visit. Non-vacuity: '
+    'C07_recovery_master_witness (two peripherals, 40 visits, 13 cycles, global control interleaved).')
+PROPS["C07"]["technique"] += ' + invariant proof that the DP master model runs the joint system per slot (ghost log of the slot loop: one turn per slot and cycle)'
+PROPS["C07"]["partial_gap"] = PROPS["C07"]["partial_gap"].replace(
+    '(a) the joint system has ONE peripheral driven at the Peripheral level; the composition with DpMaster slot iteration / global-control '
+    'telegrams for several peripherals is not part of C07_recovery (C14 covers the cycle structure; the monitor checks the multi-peripheral case '
+    'on implementation transcripts).',
+    '(a) C07_recovery itself is about ONE peripheral at the Peripheral level; the composition with the DpMaster slot iteration and global '
+    'control for any number of peripherals is now proved (C07_master_runs_joint_system, C07_recovery_master), from any cycle position of the '
+    'master with no request outstanding (max_retry + 11 master cycles from a cycle boundary, one more from inside a cycle), with one device per '
+    'peripheral address and distinct addresses; the run is assumed not to reach a panic site (Ok): panic freedom is C05.')
+assert "composition with DpMaster slot iteration" not in PROPS["C07"]["partial_gap"]
+assert "is not covered (fixed peripheral set)" not in PROPS["C04"]["partial_gap"]
+assert "does not judge them either" not in PROPS["C14"]["partial_gap"]
